@@ -130,6 +130,45 @@ def real_runs(ctx, viol, stats):
     stats["real_model_steps"] = n
 
 
+def vogp_ad_accounting(ctx, viol, stats):
+    """whole VOGP_AD runs (stub GP): round + 1 per active step (the terminal one included), completion flag, idle afterwards"""
+    import random
+    import vopy.algorithms.vogp_ad as mod
+    from vopy.algorithms import VOGP_AD
+    from vopy.order import ComponentwiseOrder
+    from props import c18
+    rng = random.Random(313 + ctx.seed)
+    n = 0
+    for run_i in range(2 if ctx.quick else 10):
+        c18.FORCE_DEPTH[0] = 2
+        prob, depth = c18.make_problem(rng, 1)
+        c18.FORCE_DEPTH[0] = None
+        stub = c18.StubGP(prob, 1.0)
+        old = mod.get_gpytorch_model_w_known_hyperparams
+        mod.get_gpytorch_model_w_known_hyperparams = lambda *a, **k: stub
+        try:
+            a = VOGP_AD(0.6, 0.1, prob, ComponentwiseOrder(2), 0.01, conf_contraction=128)
+        finally:
+            mod.get_gpytorch_model_w_known_hyperparams = old
+        finished = False
+        for t in range(300):
+            pre = (int(a.round), len(a.S), int(a.sample_count))
+            try:
+                done = bool(a.run_one_step())
+            except Exception as e:
+                viol.append({"signature": "VOGP_AD:step-raised", "message": f"VOGP_AD step {t} raised {type(e).__name__}: {str(e)[:100]}", "replay": {"kind": "vogp_ad", "run": run_i}}); break
+            post = (int(a.round), len(a.S), int(a.sample_count))
+            n += 1
+            if pre[1] == 0:
+                if not done or post != pre:
+                    viol.append({"signature": "VOGP_AD:not-idle-after-done", "message": f"VOGP_AD step {t} after completion changed (round, |S|, samples) {pre} -> {post} / returned {done}", "replay": {"kind": "vogp_ad", "run": run_i}})
+                break
+            if post[0] != pre[0] + 1 or done != (post[1] == 0):
+                viol.append({"signature": "VOGP_AD:step-accounting", "message": f"VOGP_AD active step {t}: (round, |S|, samples) {pre} -> {post}, returned {done}: the round counter must advance by one per active step and the flag must equal 'S is empty'", "replay": {"kind": "vogp_ad", "run": run_i}})
+                break
+    stats["vogp_ad_steps"] = n
+
+
 def known_finding_probe(ctx, viol):
     """hyper-rectangular PaVeBaGP with a 6-facet cone on 3 objectives (recorded finding)"""
     spec = scenarios.make_spec(__import__("random").Random(7), "PaVeBaGP-IH")
@@ -174,6 +213,7 @@ def run(ctx):
     for r in recs:
         check_record(r, viol)
     real_runs(ctx, viol, stats)
+    vogp_ad_accounting(ctx, viol, stats)
     known_finding_probe(ctx, viol)
     steps = sum(len(r["steps"]) for r in recs)
     batches = {}
